@@ -11,14 +11,37 @@ Import ListNotations.
 Open Scope Z_scope.
 
 Definition jstate : Type := (regs * Z * mem)%type.
-Definition jit_step (E : ienv) (s : jstate) : res jres :=
-  let '(R, pc, m) := s in jit_exec E (insn_at (e_prog E) pc) (pc + 1) R m.
-Fixpoint jit_steps (fuel : nat) (E : ienv) (s : jstate) : outcome :=
+Definition jit_step (g : Z -> Z) (E : ienv) (s : jstate) : res jres :=
+  let '(R, pc, m) := s in jit_exec g E (insn_at (e_prog E) pc) (pc + 1) R m.
+(** [clob f r] = what the helper called at the step with f steps of budget left leaves in the caller-saved x86 register r *)
+Fixpoint jit_steps (clob : nat -> Z -> Z) (fuel : nat) (E : ienv) (s : jstate) : outcome :=
   match fuel with
   | O => OFuel
-  | S f => match jit_step E s with
-           | Ok (JNext R' pc' m') => jit_steps f E (R', pc', m')
+  | S f => match jit_step (clob f) E s with
+           | Ok (JNext R' pc' m') => jit_steps clob f E (R', pc', m')
            | Ok (JRet r m) => ODone r m
+           | Err e => OErr e (snd s)
+           | Panic _ => OPanic
+           | OutOfFuel => OFuel
+           end
+  end.
+
+(** the reference: the ISA, except that a helper call leaves r1-r5 undefined -- here: holding that same garbage *)
+Definition is_helper_call (i : insn) : bool := (opc i =? op_call) && (src i =? 0).
+Definition isa_step_c (g : Z -> Z) (E : ienv) (s : istate) : res stepres :=
+  let '(_, pc, _, _, _) := s in
+  match isa_step E s with
+  | Ok (SNext (reg', pc', f', st', m')) =>
+      if is_helper_call (insn_at (e_prog E) pc) then Ok (SNext (clobber g reg', pc', f', st', m'))
+      else Ok (SNext (reg', pc', f', st', m'))
+  | r => r
+  end.
+Fixpoint isa_steps_c (clob : nat -> Z -> Z) (fuel : nat) (E : ienv) (s : istate) : outcome :=
+  match fuel with
+  | O => OFuel
+  | S f => match isa_step_c (clob f) E s with
+           | Ok (SNext s') => isa_steps_c clob f E s'
+           | Ok (SRet r m) => ODone r m
            | Err e => OErr e (snd s)
            | Panic _ => OPanic
            | OutOfFuel => OFuel
@@ -42,41 +65,69 @@ Variable E : ienv.
 Hypothesis Hb : bytes_ok (e_prog E).
 Hypothesis Hacc : acc (e_prog E).
 Hypothesis He : env_ok E.
-(** no helper or local call (helper calls leave r1-r5 undefined, local calls are known finding D18); packet-relative loads
-    with a non-negative immediate (the JIT sign-extends it, the ISA zero-extends it) *)
+(** calls are helper calls to registered helpers (otherwise jit_compile returns an error; local calls are known finding
+    D18); packet-relative loads have a non-negative immediate (the JIT sign-extends it, the ISA zero-extends it) *)
 Hypothesis Hprog : forall k, In k (starts (e_prog E)) ->
-  opc (insn_at (e_prog E) k) <> op_call /\ (opc (insn_at (e_prog E) k) mod 8 = 0 -> 0 <= imm (insn_at (e_prog E) k)).
+  (opc (insn_at (e_prog E) k) = op_call ->
+     src (insn_at (e_prog E) k) = 0 /\ e_helpers E (u32 (imm (insn_at (e_prog E) k))) <> None) /\
+  (opc (insn_at (e_prog E) k) mod 8 = 0 -> 0 <= imm (insn_at (e_prog E) k)).
 
-Theorem jit_steps_refine fuel : forall reg R pc stacks m r m',
+Lemma inv_clobber g reg pc stacks m : Inv E (reg, pc, 0, stacks, m) -> Inv E (clobber g reg, pc, 0, stacks, m).
+Proof.
+  intros HI. unfold clobber, set_reg.
+  assert (S : forall reg d v, Inv E (reg, pc, 0, stacks, m) -> 0 <= d <= 9 -> Inv E (upd reg d (v mod 2 ^ 64), pc, 0, stacks, m)).
+  { intros rg d v H Hd9. pose proof H as (Hpc & _ & _ & Hf & Hm & _).
+    apply (inv_set_reg E rg pc 0 stacks m stacks d _ pc m H Hf); try reflexivity; try assumption. apply mod64_range. }
+  repeat apply S; try lia. exact HI.
+Qed.
+
+Theorem jit_steps_refine clob fuel : forall reg R pc stacks m r m',
   Inv E (reg, pc, 0, stacks, m) -> jrel reg R -> R 10 = e_mem_base E ->
-  isa_steps fuel E (reg, pc, 0, stacks, m) = ODone r m' ->
-  jit_steps fuel E (R, pc, m) = ODone r m'.
+  isa_steps_c clob fuel E (reg, pc, 0, stacks, m) = ODone r m' ->
+  jit_steps clob fuel E (R, pc, m) = ODone r m'.
 Proof.
   induction fuel as [|f IH]; intros reg R pc stacks m r m' HI Hrel H10 H; [discriminate H|].
-  cbn [isa_steps] in H. cbn [jit_steps].
+  cbn [isa_steps_c] in H. cbn [jit_steps]. unfold isa_step_c in H.
   destruct (isa_step E (reg, pc, 0, stacks, m)) as [st|e|x|] eqn:Hs; try discriminate H.
   pose proof HI as (Hpc & Hr & _ & _ & Hm & _).
   pose proof (verifier_facts E Hb Hacc pc Hpc) as V. pose proof (start_range E pc Hpc) as Rpc.
-  destruct (Hprog pc Hpc) as [Nc Himm]. destruct (vf_wf E pc V) as (W1 & W2 & W3 & W4 & W5).
+  destruct (Hprog pc Hpc) as [Hcall Himm]. destruct (vf_wf E pc V) as (W1 & W2 & W3 & W4 & W5).
   pose proof Hs as Hs0. unfold isa_step in Hs.
   destruct (refresh_usage E stacks 0 pc) as [st2| | |] eqn:Ru; cbn [bind] in Hs; try discriminate Hs.
-  assert (X := jit_exec_simulates E (insn_at (e_prog E) pc) reg R (pc + 1) 0 st2 m st Hr Hrel H10 Hm (vf_wf E pc V)).
-  assert (Hd : 0 <= dst (insn_at (e_prog E) pc) <= 10) by (destruct (vf_dst E pc V) as [D|[D _]]; lia).
-  assert (Hsr : 0 <= src (insn_at (e_prog E) pc) <= 10) by (pose proof (vf_src E pc V); lia).
-  specialize (X Hd Hsr (supported_cl _ (vf_sup E pc V)) Nc).
-  assert (Hend : (opc (insn_at (e_prog E) pc) =? op_le) || (opc (insn_at (e_prog E) pc) =? op_be) = true -> In (imm (insn_at (e_prog E) pc)) [16; 32; 64]).
-  { intros En. destruct (vf_end E pc V En) as [A|[A|A]]; rewrite A; cbn [In]; tauto. }
-  assert (Hld : opc (insn_at (e_prog E) pc) = op_lddw -> wf_insn (insn_at (e_prog E) (pc + 1))).
-  { intros El. destruct (vf_lddw E pc V El) as [L _]. apply insn_at_wf; [exact (p_shape E Hb Hacc)|lia]. }
-  specialize (X Hend Hld (fun _ => eq_refl) Himm Hs).
   unfold jit_step.
-  destruct st as [[[[[reg' pc'] f'] st'] mm]|v mv].
-  - pose proof (step_preserves E Hb Hacc He _ _ HI Hs0) as HI'.
-    pose proof HI' as (_ & Hr' & _).
-    destruct (X Hr') as (R' & Hj & Hrel' & H10'). rewrite Hj.
-    assert (F0 : f' = 0) by (eapply isa_exec_fidx; eauto). subst f'.
-    apply (IH reg' R' pc' st' mm r m' HI' Hrel'); [congruence|exact H].
-  - rewrite X. exact H.
+  destruct (Z.eq_dec (opc (insn_at (e_prog E) pc)) op_call) as [Ho|Nc].
+  - (* helper call *)
+    destruct (Hcall Ho) as [Hsrc Hreg].
+    destruct (e_helpers E (u32 (imm (insn_at (e_prog E) pc)))) as [fh|] eqn:Hf; [|now destruct Hreg].
+    assert (Hst : st = SNext (set_reg reg 0 (fh (rd reg 1) (rd reg 2) (rd reg 3) (rd reg 4) (rd reg 5)), pc + 1, 0, st2, m)).
+    { unfold isa_exec, isa_exec_dec in Hs. rewrite Ho, Hsrc in Hs.
+      change ((op_call mod 8 =? 7) || (op_call mod 8 =? 4)) with false in Hs. change ((op_call mod 8 =? 5) || (op_call mod 8 =? 6)) with true in Hs.
+      change (op_call =? op_ja) with false in Hs. change (op_call =? op_call) with true in Hs. change (0 =? 0) with true in Hs. cbv iota in Hs.
+      rewrite Hf in Hs. now injection Hs as <-. }
+    subst st. unfold is_helper_call in H. rewrite Ho, Hsrc in H. change ((op_call =? op_call) && (0 =? 0)) with true in H. cbv iota in H.
+    destruct (jit_call_sim (clob f) E _ reg R (pc + 1) m fh Hr Hrel He (vf_wf E pc V) Ho Hsrc Hf) as (R' & Hj & Hrel' & H10').
+    rewrite Hj.
+    pose proof (step_preserves E Hb Hacc He _ _ HI Hs0) as HI'.
+    apply (IH _ R' (pc + 1) st2 m r m' (inv_clobber _ _ _ _ _ HI') Hrel'); [congruence|exact H].
+  - assert (NH : is_helper_call (insn_at (e_prog E) pc) = false).
+    { unfold is_helper_call. destruct (Z.eqb_spec (opc (insn_at (e_prog E) pc)) op_call); [contradiction|reflexivity]. }
+    rewrite NH in H.
+    assert (X := jit_exec_simulates (clob f) E (insn_at (e_prog E) pc) reg R (pc + 1) 0 st2 m st Hr Hrel H10 Hm (vf_wf E pc V)).
+    assert (Hd : 0 <= dst (insn_at (e_prog E) pc) <= 10) by (destruct (vf_dst E pc V) as [D|[D _]]; lia).
+    assert (Hsr : 0 <= src (insn_at (e_prog E) pc) <= 10) by (pose proof (vf_src E pc V); lia).
+    specialize (X Hd Hsr (supported_cl _ (vf_sup E pc V)) Nc).
+    assert (Hend : (opc (insn_at (e_prog E) pc) =? op_le) || (opc (insn_at (e_prog E) pc) =? op_be) = true -> In (imm (insn_at (e_prog E) pc)) [16; 32; 64]).
+    { intros En. destruct (vf_end E pc V En) as [A|[A|A]]; rewrite A; cbn [In]; tauto. }
+    assert (Hld : opc (insn_at (e_prog E) pc) = op_lddw -> wf_insn (insn_at (e_prog E) (pc + 1))).
+    { intros El. destruct (vf_lddw E pc V El) as [L _]. apply insn_at_wf; [exact (p_shape E Hb Hacc)|lia]. }
+    specialize (X Hend Hld (fun _ => eq_refl) Himm Hs).
+    destruct st as [[[[[reg' pc'] f'] st'] mm]|v mv].
+    + pose proof (step_preserves E Hb Hacc He _ _ HI Hs0) as HI'.
+      pose proof HI' as (_ & Hr' & _).
+      destruct (X Hr') as (R' & Hj & Hrel' & H10'). rewrite Hj.
+      assert (F0 : f' = 0) by (eapply isa_exec_fidx; eauto). subst f'.
+      apply (IH reg' R' pc' st' mm r m' HI' Hrel'); [congruence|exact H].
+    + rewrite X. exact H.
 Qed.
 End Run.
 
@@ -91,22 +142,36 @@ Proof.
     repeat (destruct C as [->|C]; [reflexivity|]). subst k. reflexivity.
 Qed.
 
-(** C03: for every accepted program without calls, every input and budget, and every register file in which R10 holds
-    the packet address and the register of eBPF r10 the top of the stack (what the prologue establishes: C09_jit_prologue_...),
-    the emitted code returns the value and leaves the memory of the ISA run from the same eBPF register values *)
-Theorem jit_run_refines E m0 fuel R0 r m' :
+(** C03: for every accepted program whose calls are helper calls, every input and budget, every register file in which R10
+    holds the packet address and the register of eBPF r10 the top of the stack (what the prologue establishes:
+    C09_jit_prologue_...), and whatever the helpers leave in the caller-saved registers, the emitted code returns the value
+    and leaves the memory of the ISA run from the same eBPF register values *)
+Theorem jit_run_refines E m0 clob fuel R0 r m' :
   bytes_ok (e_prog E) -> acc (e_prog E) -> env_ok E -> mem_ok m0 ->
   (forall k, In k (starts (e_prog E)) ->
-     opc (insn_at (e_prog E) k) <> op_call /\ (opc (insn_at (e_prog E) k) mod 8 = 0 -> 0 <= imm (insn_at (e_prog E) k))) ->
+     (opc (insn_at (e_prog E) k) = op_call ->
+        src (insn_at (e_prog E) k) = 0 /\ e_helpers E (u32 (imm (insn_at (e_prog E) k))) <> None) /\
+     (opc (insn_at (e_prog E) k) mod 8 = 0 -> 0 <= imm (insn_at (e_prog E) k))) ->
   (forall x, 0 <= R0 x < 2 ^ 64) -> R0 10 = e_mem_base E -> R0 (ez 10) = e_stack_base E + e_stack_len E ->
-  isa_steps fuel E (regs_of R0, 0, 0, stacks0, m0) = ODone r m' ->
-  jit_steps fuel E (R0, 0, m0) = ODone r m'.
+  isa_steps_c clob fuel E (regs_of R0, 0, 0, stacks0, m0) = ODone r m' ->
+  jit_steps clob fuel E (R0, 0, m0) = ODone r m'.
 Proof.
   intros Hb Ha He Hm Hp HR H10 Hsp H. destruct (regs_of_rel R0 HR) as [Hok Hrel].
-  apply (jit_steps_refine E Hb Ha He Hp fuel (regs_of R0) R0 0 stacks0 m0 r m'); try assumption.
+  apply (jit_steps_refine E Hb Ha He Hp clob fuel (regs_of R0) R0 0 stacks0 m0 r m'); try assumption.
   pose proof (init_inv E m0 Hb Ha He Hm) as (Hpc & _ & Hf & Hfr & _ & _ & Hrets).
   refine (conj Hpc (conj Hok (conj Hf (conj Hfr (conj Hm (conj _ Hrets)))))).
   destruct He as [_ _ (S1 & S2 & S3) _ _].
   unfold usage_sum. change (Z.to_nat 0) with 0%nat. cbn [firstn map fold_right].
   change (rd (regs_of R0) 10) with (R0 (ez 10)). rewrite Hsp, S2. lia.
+Qed.
+
+(** a program that makes no helper call does not see the garbage: the reference is then the plain ISA run *)
+Lemma isa_steps_c_nocall E clob fuel : (forall k, opc (insn_at (e_prog E) k) <> op_call) ->
+  forall s, isa_steps_c clob fuel E s = isa_steps fuel E s.
+Proof.
+  intros Hn. induction fuel as [|f IH]; intros s; [reflexivity|].
+  cbn [isa_steps_c isa_steps]. unfold isa_step_c. destruct s as [[[[reg pc] fidx] stacks] m].
+  assert (NH : is_helper_call (insn_at (e_prog E) pc) = false).
+  { unfold is_helper_call. destruct (Z.eqb_spec (opc (insn_at (e_prog E) pc)) op_call) as [Q|_]; [now destruct (Hn pc)|reflexivity]. }
+  rewrite NH. destruct (isa_step E (reg, pc, fidx, stacks, m)) as [[[[[[reg' pc'] f'] st'] m']|v mv]|e|x|]; try reflexivity. apply IH.
 Qed.
